@@ -86,6 +86,9 @@ class Out:
     def __init__(self, kind, val, st, target=None):
         self.kind, self.val, self.st, self.target = kind, val, st, target
 
+# observers whose result depends only on their arguments: the same test at two sites is the same atom
+PURE_OBSERVERS = {'is_empty', 'len', 'is_some', 'is_none', 'is_ok', 'is_err', 'contains', 'contains_key', 'is_hex_digit', 'is_alphabetic',
+                  'is_alphanumeric', 'is_digit', 'is_incomplete', 'input_len', 'is_ref', 'is_intermediate', 'eq', 'ne'}
 UNIT = ('tuple', ())
 TRUE, FALSE = ('lit', True), ('lit', False)
 
@@ -310,7 +313,13 @@ class Interp:
 
     def ev_Index(self, e, st):
         res, abn = self.seq([e['e'], e['idx']], st)
-        return [Out('val', ('index', a, b), s.event(('index', a, b, e))) for (a, b), s in res] + abn
+        outs = []
+        for (a, b), s in res:
+            if a[0] == 'lit' and isinstance(a[1], bytes) and b[0] == 'lit' and isinstance(b[1], int) and b[1] < len(a[1]):
+                outs.append(Out('val', ('lit', a[1][b[1]]), s))
+            else:
+                outs.append(Out('val', ('index', a, b), s.event(('index', a, b, e))))
+        return outs + abn
 
     def ev_Block(self, e, st):
         states = [st]
@@ -730,7 +739,9 @@ class Interp:
             r = self.inline_call(cal, args, node, st)
             if r is not None:
                 return r
-        t = ('call', cal, tuple(args), node.get('id'))
+        name = cal.rsplit('::', 1)[-1]
+        site = None if name in PURE_OBSERVERS else node.get('id')
+        t = ('call', cal, tuple(args), site)
         return [Out('val', t, st.event(('call', cal, tuple(args), node)))]
 
     # ------------------------------------------------------------------ pattern matching
@@ -1082,6 +1093,8 @@ def builtin_summary(I, cal, args, node, st):
                 else:
                     outs.append(o)
         return outs
+    if name in ('is_empty', 'len') and args and args[0][0] == 'lit' and isinstance(args[0][1], (bytes, str)):
+        return [Out('val', ('lit', len(args[0][1]) == 0 if name == 'is_empty' else len(args[0][1])), st)]
     if name in ('is_empty', 'len') and args and args[0][0] == 'vec' and cal.startswith('alloc::vec::Vec'):
         return [Out('val', ('lit', len(args[0][1]) == 0 if name == 'is_empty' else len(args[0][1])), st)]
     if name in ('box_assume_init_into_vec_unsafe', 'into_vec'):
